@@ -29,7 +29,7 @@ MANIFEST = {
     'technique': 'explicit-state BFS over operation histories (register / overwrite / rejected register / remove method / serve a request) on '
                  'the real Ombott application; every reached method-table state probed with all request methods x paths '
                  'against a reference dispatch model',
-    'text': 'All histories up to depth 3 (quick) / 5 (thorough) over a menu of 46 operations (registrations, removals, served requests) on two rules are replayed on '
+    'text': 'All histories up to depth 3 (quick) / 5 (thorough) over a menu of 54 operations (registrations, removals, served requests) on two rules are replayed on '
             'fresh applications; each distinct method-table state is probed with 8 request methods x 5 paths and compared '
             'with the reference (handler, status, exact Allow); rejected registrations must not change the state. The search is repeated on an application with a scoped 404 handler, and every 405 is also requested as JSON.',
     'note': 'Bounds: 2 editable rules + 1 static, handler identities A/B, depth as stated. Trusted: the reference model here.',
@@ -500,4 +500,4 @@ def _replay(case):
         EXTRA_RULES[:] = []
         EXTRA_PATHS[:] = []
 
-MANIFEST['text'] += ' Extension methods (M-SEARCH), the per-route add_method / set_method interface with a single name, and a literal rule below a wildcard rule (overlap shard) are part of the menu (62 operations + 12 in the overlap shard).'
+MANIFEST['text'] += ' Extension methods (M-SEARCH), the per-route add_method / set_method interface with a single name, and a literal rule below a wildcard rule (overlap shard) are part of the menu (54 operations + 12 in the overlap shard).'
